@@ -1,9 +1,12 @@
 (* C19 — Classification assigns the arg-max density class under the learning scaling.
    Property theorems only; each is closed by `exact` of a lemma from Proofs/ClassifyProofs.v (or is a concrete witness).
    Model: Model/Classify.v on top of Model/DataSet.v; the per-class densities are inputs of the model. *)
-From Coq Require Import ZArith List QArith Qcanon Bool Permutation.
+From Coq Require Import ZArith List QArith Qcanon Bool Permutation Lia.
+(* C18's offset model first: Model/ClassifyLearn.v's label_order_ok (on rows) must shadow the one of Model/DataSetOff.v (on a data set) *)
+From SG Require Import Model.DataSetOff Proofs.DataSetTrack Proofs.DataSetOffP.
 From SG Require Import Base.QcUtil Model.DataSet Model.Classify Model.ClassifyLearn Proofs.DataSetVec Proofs.DataSetScale Proofs.DataSetRevert
   Proofs.DataSetMove Proofs.ClassifyProofs Proofs.ClassifyLearnProofs Proofs.ClassifyRange.
+From SG Require Import Proofs.ClassifyPrescaled Proofs.ClassifyOvo Proofs.ClassifyEndToEnd.
 Import ListNotations.
 Open Scope Qc_scope.
 
@@ -236,3 +239,213 @@ Qed.
 (* non-vacuity of the in-range theorems: the hypotheses hold for the concrete four-sample data set of the first example *)
 Example C19_nonvacuous_in_range : wf ex_learn /\ exists sd, scale_range c_lo c_hi true ex_learn = (sd, false) /\ length (rows sd) = 4%nat.
 Proof. split; [split; [vm_compute; discriminate | repeat constructor]|]. eexists. split; vm_compute; reflexivity. Qed.
+
+(* ======================================================================================================================
+   Phase 3.  (3) PRE-SCALED INPUT over the affine-map model of C18 (Model/DataSetOff.v): InvO n d R fv cv = "the rows of d are
+   R * fv + cv per dimension, fv / cv are the accumulated _scaling_factor / _scaling_offset" - whatever sequence of scale_range /
+   scale_factor / shift_value calls (by the user or by an earlier call) produced d.  sd = the learning data with its map (fl, cl). *)
+
+(* the code as found: an already scaled input is accepted only with the learning FACTOR, and then exactly the samples that are out of
+   range AT THEIR CURRENT POSITIONS are removed and reported *)
+Theorem C19_prescaled_accepted_same_factor : forall n v st sd d Rl R fl cl fv cv d1,
+  InvO n sd Rl fl cl -> InvO n d R fv cv -> c_scaled_attrs st = base sd ->
+  internal_scaling v st (base d) = (d1, false) ->
+  fv = fl /\
+  exists r, Permutation (rows r ++ rows d1) (rows (base d)) /\
+    Forall (fun s => out_of_range (fst s) = false) (rows d1) /\ Forall (fun s => out_of_range (fst s) = true) (rows r).
+Proof. intros n v st sd d Rl R fl cl fv cv d1 H1 H2 H3. exact (prescaled_accepted_same_factor n v st sd d Rl R fl cl fv cv H1 H2 H3 d1). Qed.
+Theorem C19_prescaled_equal_maps_positions : forall n d R fl cl fv cv, InvO n d R fv cv -> fv = fl -> cv = cl ->
+  rows (base d) = map_rows (aff fl cl) R.
+Proof. intros n d R fl cl fv cv H. exact (prescaled_equal_maps_positions n d R fl cl fv cv H). Qed.
+(* ... but the accumulated OFFSET is not compared: REFUTED for the code as found.  Learning data (0,0),(1,1),(4,4),(5,5); the input
+   (2,2),(7,7),(3,3) (the same extent, moved by +2), min-max scaled by the user to the internal range (0.005, 0.995), is ACCEPTED; its first
+   sample is classified at 0.005 instead of 0.401 and (7,7), at 1.391 under the learning map, is neither removed nor reported *)
+Theorem C19_prescaled_offset_not_compared_refuted :
+  exists st sd d R d1, c_scaled_attrs st = base sd /\
+    internal_scaling repaired st (base d) = (d1, false) /\ length (rows d1) = length R /\
+    rows (base d) <> map_rows (scale_point (c_min st) (c_fac st)) R /\
+    existsb (fun s => out_of_range (scale_point (c_min st) (c_fac st) (fst s))) R = true.
+Proof.
+  exists exp_st, exp_learn, exp_input, exp_orig. eexists.
+  split; [reflexivity|].
+  split; [vm_compute; reflexivity|]. split; [vm_compute; reflexivity|]. split; [vm_compute; discriminate | vm_compute; reflexivity].
+Qed.
+(* with the accumulated affine maps compared (fixes/C19-internal-scaling-compares-offset.patch): for EVERY tracked input, in whatever
+   scaling state, the call either rejects it or every sample sits at the learning map of its ORIGINAL coordinates, and exactly the
+   samples whose learning-map position is out of range are removed and reported (labels attached) *)
+Theorem C19_prescaled_repaired_rejects_or_places : forall n v st sd d Rl R fl cl fv cv d1 e,
+  InvO n sd Rl fl cl -> InvO n d R fv cv -> c_scaled_attrs st = base sd ->
+  internal_scaling_o true v st sd d = (d1, e) ->
+  e = true \/
+  (fv = fl /\ cv = cl /\ rows (base d) = map_rows (aff fl cl) R /\
+   exists r, Permutation (rows r ++ rows d1) (map_rows (aff fl cl) R) /\
+     Forall (fun s => out_of_range (fst s) = false) (rows d1) /\ Forall (fun s => out_of_range (fst s) = true) (rows r)).
+Proof. intros n v st sd d Rl R fl cl fv cv d1 e H1 H2 H3. exact (prescaled_repaired_rejects_or_places n v st sd d Rl R fl cl fv cv H1 H2 H3 d1 e). Qed.
+Print Assumptions C19_prescaled_accepted_same_factor.
+Print Assumptions C19_prescaled_equal_maps_positions.
+Print Assumptions C19_prescaled_offset_not_compared_refuted.
+Print Assumptions C19_prescaled_repaired_rejects_or_places.
+
+(* non-vacuity: the learning data and the translated input of the witness are tracked data sets (InvO), the state refers to the learning
+   data; the repaired gate rejects the translated input and accepts the learning data themselves *)
+Example C19_nonvacuous_prescaled :
+  (exists fl cl, InvO 2 exp_learn [(exq 0 0, 0%Z); (exq 1 1, 0%Z); (exq 4 4, 1%Z); (exq 5 5, 1%Z)] fl cl) /\
+  (exists fv cv, InvO 2 exp_input exp_orig fv cv) /\ c_scaled_attrs exp_st = base exp_learn /\
+  snd (internal_scaling_o true repaired exp_st exp_learn exp_input) = true /\
+  snd (internal_scaling_o true repaired exp_st exp_learn exp_learn) = false.
+Proof.
+  assert (W : forall r : list sample, r <> [] -> Forall (fun s => length (fst s) = 2%nat) r -> dim_of r = 2%nat ->
+              exists fv cv, InvO 2 (fst (scale_range_o true c_lo c_hi true (fresh_o r))) r fv cv).
+  { intros r Hne Hl Hd. assert (Hwf : wf (base (fresh_o r))) by (split; [exact Hne | cbn; rewrite Hd; exact Hl]).
+    destruct (ofirst_range (fresh_o r) c_lo c_hi true Hwf) as [d' [fv [cv [E I]]]]; [reflexivity | apply Qc_ltb_lt; vm_compute; reflexivity|].
+    rewrite E. cbn [fst]. cbn [base fresh_o fresh ddim rows] in I. rewrite Hd in I. exists fv, cv. exact I. }
+  split; [apply W; [discriminate | repeat constructor | reflexivity]|].
+  split; [apply W; [discriminate | repeat constructor | reflexivity]|].
+  split; [reflexivity|]. split; vm_compute; reflexivity.
+Qed.
+
+(* ======================================================================================================================
+   Phase 3.  (2) ONE_VS_OTHERS inside the trained-arg-max theorem (Model/ClassifyLearn.v: split_one_vs_others, classify_ovo).
+   Classificator j is trained on ALL learning samples with signed labels: +1 for class j, max(-1, -(n_j / (N - n_j))) for the others; the
+   code indexes the class counts BY THE LABEL VALUE, so the statement needs get_labels() = 0, 1, ..., k-1 in this order (what the code
+   requires; CPython iterates a set of small non-negative ints 0..k-1 in this order).  deo = any estimator of a signed training set. *)
+Theorem C19_class_is_trained_argmax_one_vs_others : forall cv (deo : list (row * Qc) -> row -> Qc) k r pts i,
+  cv_labels cv = true -> (0 < k)%nat -> (i < length pts)%nat ->
+  let lo := labels_upto k in
+  let x := nth i pts [] in
+  let c := nth i (classify_ovo cv deo lo r pts) 0%Z in
+  exists a, (a < k)%nat /\ c = Z.of_nat a /\
+    (forall l, In l lo -> deo (ovo_piece lo r l) x <= deo (ovo_piece lo r c) x) /\
+    (forall b, (b < a)%nat -> deo (ovo_piece lo r (Z.of_nat b)) x < deo (ovo_piece lo r c) x).
+Proof. exact class_is_trained_argmax_ovo. Qed.
+Theorem C19_one_vs_others_training_data : forall k r j, In j (labels_upto k) ->
+  ovo_piece (labels_upto k) r j =
+  map (fun s => (fst s, if Z.eqb (snd s) j then 1
+                        else Qc_max (- (1)) (- (Q2Qc (inject_Z (count_label j r)) /
+                                               Q2Qc (inject_Z (sum_Z (class_numbers (labels_upto k) r) - count_label j r)))))) r.
+Proof. exact ovo_training_data. Qed.
+Theorem C19_one_vs_others_does_not_raise : forall k r,
+  (forall j, In j (labels_upto k) -> (count_label j r < sum_Z (class_numbers (labels_upto k) r))%Z) ->
+  split_one_vs_others (labels_upto k) r = Some (map (ovo_piece (labels_upto k) r) (labels_upto k)).
+Proof. exact ovo_does_not_raise. Qed.
+(* the arg-max argument for ANY family of classificators indexed by the label order (the common core of both learners) *)
+Theorem C19_class_is_family_argmax : forall cv (f : Z -> row -> Qc) lo pts i,
+  cv_labels cv = true -> lo <> [] -> (i < length pts)%nat ->
+  let x := nth i pts [] in
+  let c := nth i (classificate cv lo (densities_at (map f lo) pts)) 0%Z in
+  exists a, (a < length lo)%nat /\ c = nth a lo 0%Z /\ In c lo /\
+    (forall l, In l lo -> f l x <= f c x) /\ (forall b, (b < a)%nat -> f (nth b lo 0%Z) x < f c x).
+Proof. exact class_is_family_argmax. Qed.
+(* the restriction is necessary: for the admissible order (1, 0) the weight of classificator 1 is computed from the count of class 0 *)
+Theorem C19_one_vs_others_other_order_refuted :
+  exists lo r j, label_order_ok lo r = true /\ In j lo /\ nth (Z.to_nat j) (class_numbers lo r) 0%Z <> count_label j r.
+Proof.
+  exists [1%Z; 0%Z], [([], 0%Z); ([], 0%Z); ([], 0%Z); ([], 1%Z)], 1%Z.
+  split; [vm_compute; reflexivity|]. split; [left; reflexivity | vm_compute; discriminate].
+Qed.
+Print Assumptions C19_class_is_trained_argmax_one_vs_others.
+Print Assumptions C19_one_vs_others_training_data.
+Print Assumptions C19_one_vs_others_does_not_raise.
+Print Assumptions C19_class_is_family_argmax.
+Print Assumptions C19_one_vs_others_other_order_refuted.
+(* non-vacuity: three classes 0,1,2 with 2/1/3 samples: no raise, weights -2/4, -1/5, -1 (3/3 capped), a toy signed estimator classifies *)
+Example C19_nonvacuous_one_vs_others :
+  let r := [([0], 0%Z); ([1], 0%Z); ([Qc2 + Qc2], 1%Z); ([Qc2 + Qc2 + Qc2 + Qc2], 2%Z); ([Qc2 + Qc2 + Qc2 + Qc2 + 1], 2%Z); ([Qc2 + Qc2 + Qc2 + Qc2 + Qc2], 2%Z)] in
+  (forall j, In j (labels_upto 3) -> (count_label j r < sum_Z (class_numbers (labels_upto 3) r))%Z) /\
+  map (fun j => ovo_weight (labels_upto 3) r j) (labels_upto 3) = [- Qchalf; - (Q2Qc (1 # 5)); - (1)] /\
+  classify_ovo c_repaired (fun t x => fold_right Qcplus 0 (map (fun s => if near (fst s) x then snd s else 0) t)) (labels_upto 3) r [[0]; [Qc2 + Qc2]] = [0%Z; 1%Z].
+Proof.
+  cbv zeta. split; [|split; vm_compute; reflexivity].
+  intros j Hj. apply labels_upto_In in Hj. destruct Hj as [i [Hi ->]].
+  destruct i as [|[|[|i]]]; [vm_compute; reflexivity | vm_compute; reflexivity | vm_compute; reflexivity | lia].
+Qed.
+
+(* ======================================================================================================================
+   Phase 3.  (1) END-TO-END.  The densities are no longer inputs: they are those of the classificators trained on the learning data
+   (Model/ClassifyLearn.v: trained_dens, call_trained, test_trained, sstep).  For EVERY rectangular data set d0 (default range), every shuffle
+   permutation / set orders / split percentage / even or uneven split accepted by the model, every estimator de, every label order lo of
+   the learning data, and EVERY history ops of __call__ / test_data / evaluate / continue_dimension_wise_refinement (each continue with
+   any refined estimator) on the one object:
+   - learning + testing data are exactly the scaled labelled samples, all inside the learned range; the unlabelled ones were set aside
+     (initialize) and never enter;
+   - the learning-time scaling (min, factor) and the label table never change;
+   - every testing sample the object holds (those split off at learning time and those added by test_data: the labelled in-range samples,
+     unlabelled ones set aside, out-of-range ones removed) is in range and carries the label c whose classificator - trained on exactly
+     the learning samples with label c - has the largest density at the sample's learning-scaled position under the CURRENT estimator;
+   - the evaluation summary is the one of exactly these labels and classes; evaluate() raises exactly when there are no testing data. *)
+Theorem C19_end_to_end : forall v cv (de : ds -> row -> Qc) lo d0 k perm idx los even p ir learn test ops,
+  cv_store cv = true -> cv_labels cv = true -> lo <> [] ->
+  Forall (fun s => length (fst s) = k) (rows d0) ->
+  initialize v d0 None = Some ir ->
+  init_split v (i_scaled ir) perm idx los even p = Some (learn, test) ->
+  let s0 := mkSys (mkC (i_min ir) (i_max ir) (i_fac ir) (i_scaled ir) lo (map snd (rows test))
+                       (classify_learned cv de lo lo learn (values test)) true) (rows test) de in
+  let s := fold_left (sstep v cv lo learn) ops s0 in
+  Permutation (rows learn ++ rows test) (rows (i_scaled ir)) /\
+  Forall (fun t => out_of_range (fst t) = false) (rows learn ++ rows test) /\
+  c_min (s_st s) = i_min ir /\ c_fac (s_st s) = i_fac ir /\ c_class_labels (s_st s) = lo /\
+  SysInv cv lo learn s /\
+  (forall i, (i < length (s_test s))%nat ->
+     let x := nth i (map fst (s_test s)) [] in let c := nth i (c_calc (s_st s)) 0%Z in
+     In c lo /\ rows (label_piece learn c) = filter (fun t => Z.eqb (snd t) c) (rows learn) /\
+     out_of_range x = false /\
+     forall l, In l lo -> s_de s (label_piece learn l) x <= s_de s (label_piece learn c) x) /\
+  (s_test s = [] -> evaluate (s_st s) = None) /\
+  (s_test s <> [] -> evaluate (s_st s) = Some (summary (map snd (s_test s)) (c_calc (s_st s)))) /\
+  length (c_calc (s_st s)) = length (s_test s).
+Proof. exact end_to_end. Qed.
+(* the invariant behind it, from ANY state that satisfies it (also after a user data range) *)
+Theorem C19_system_invariant_all_histories : forall v cv lo learn, cv_store cv = true ->
+  forall ops s, SysInv cv lo learn s -> SysInv cv lo learn (fold_left (sstep v cv lo learn) ops s).
+Proof. exact sys_invariant. Qed.
+(* one __call__ on a fresh data set of the right dimension in any state: the returned samples are exactly the in-range ones at the learning
+   map of their coordinates (the others removed and reported, Permutation), each with the class of the trained arg-max classificator
+   (C19_class_is_trained_argmax applies to cls); the object is unchanged *)
+Theorem C19_call_returns_trained_classes_of_in_range_samples : forall v cv lo learn de st d d1 cls,
+  c_class_labels st = lo -> wf d -> scaled d = false ->
+  length (c_min st) = ddim d -> length (c_fac st) = ddim d -> Forall (fun q => q <> 0) (c_fac st) ->
+  call_trained v cv de lo learn st d = (st, OCall d1 cls) ->
+  exists d3 r, rows d3 = map_rows (scale_point (c_min st) (c_fac st)) (rows d) /\
+    Permutation (rows r ++ rows d1) (rows d3) /\
+    Forall (fun s => out_of_range (fst s) = false) (rows d1) /\ Forall (fun s => out_of_range (fst s) = true) (rows r) /\
+    cls = classify_learned cv de lo lo learn (values d1).
+Proof. exact call_trained_spec. Qed.
+(* test_data with trained classificators: either nothing changes (it raises) or exactly the labelled in-range samples are appended with their
+   trained classes and the summary of exactly these samples is returned *)
+Theorem C19_test_data_appends_labelled_in_range_samples : forall v cv lo learn, cv_store cv = true -> forall de st d st' out,
+  c_class_labels st = lo -> test_trained v cv de lo learn st d = (st', out) ->
+  (st' = st /\ exists x, out = ORaise x) \/
+  (exists d1 used, internal_scaling v st d = (d1, false) /\ used = snd (split_without_labels d1) /\ rows used <> [] /\
+     rows used = filter (fun s => Z.leb 0 (snd s)) (rows d1) /\
+     let cls := classify_learned cv de lo lo learn (values used) in
+     out = OTest d1 cls (summary (map snd (rows used)) cls) /\
+     learning_params st' = learning_params st /\ c_scaled_attrs st' = c_scaled_attrs st /\
+     c_test_labels st' = c_test_labels st ++ map snd (rows used) /\ c_calc st' = c_calc st ++ cls).
+Proof. exact test_trained_spec. Qed.
+Print Assumptions C19_end_to_end.
+Print Assumptions C19_system_invariant_all_histories.
+Print Assumptions C19_call_returns_trained_classes_of_in_range_samples.
+Print Assumptions C19_test_data_appends_labelled_in_range_samples.
+
+(* non-vacuity: six samples of the classes 8 and 1 plus one unlabelled sample; default initialisation, shuffled even split 1/2 (set order 8, 1);
+   history: test_data with an in-range labelled, an unlabelled and an out-of-range sample; continued refinement with another estimator; __call__;
+   evaluate: all hypotheses of C19_end_to_end hold and the object ends with 3 testing samples and 3 classes *)
+Definition ex_e2e_d0 : ds := fresh [([0; 0], 8%Z); ([1; Qc2], 8%Z); ([Qc2; 1], 8%Z); ([Qc2; Qc2], (-1)%Z);
+                                    ([Qc2 + Qc2; Qc2 + Qc2], 1%Z); ([Qc2 + 1; Qc2 + Qc2], 1%Z); ([Qc2 + Qc2; Qc2 + 1], 1%Z)].
+Example C19_nonvacuous_end_to_end :
+  exists ir learn test,
+    Forall (fun s => length (fst s) = 2%nat) (rows ex_e2e_d0) /\
+    initialize repaired ex_e2e_d0 None = Some ir /\
+    init_split repaired (i_scaled ir) (Some [5; 0; 3; 1; 4; 2]%nat) (rev (boundary_idx (fst (shuffle_with [5; 0; 3; 1; 4; 2]%nat (i_scaled ir)))))
+               [8%Z; 1%Z] true Qchalf = Some (learn, test) /\
+    length (rows test) = 2%nat /\
+    let s0 := mkSys (mkC (i_min ir) (i_max ir) (i_fac ir) (i_scaled ir) [8%Z; 1%Z] (map snd (rows test))
+                         (classify_learned c_repaired ex_de [8%Z; 1%Z] [8%Z; 1%Z] learn (values test)) true) (rows test) ex_de in
+    let s := fold_left (sstep repaired c_repaired [8%Z; 1%Z] learn)
+               [STest (fresh [([1; 1], 8%Z); ([1; 0], (-1)%Z); ([Qc2 + Qc2 + Qc2 + Qc2 + 1; 0], 1%Z)]);
+                SCont (fun d x => ex_de d x + 1); SCall (fresh [([1; 1], 0%Z)]); SEval] s0 in
+    length (s_test s) = 3%nat /\ length (c_calc (s_st s)) = 3%nat /\ evaluate (s_st s) <> None.
+Proof.
+  do 3 eexists. split; [repeat constructor|]. split; [vm_compute; reflexivity|]. split; [vm_compute; reflexivity|].
+  split; [vm_compute; reflexivity|]. cbv zeta. split; [vm_compute; reflexivity|]. split; [vm_compute; reflexivity | vm_compute; discriminate].
+Qed.
